@@ -218,6 +218,12 @@ def upload(rng, gname=None):
                            (4294967295, 1), (4294967200, 96), (4294967295, 4294967295), (plen, 0), (plen, 1), (1, min(plen - 1, 16384)),
                            (0, plen)])
         return send(L, fr('Request', p, b, l))
+    if len(own) < n:
+        # a well-formed request for a piece we hold (served, the piece stays loaded), then one for a piece we lack,
+        # with a range that would fit the loaded piece: nothing may be sent for it
+        i, j = rng.choice(sorted(own)), rng.choice(sorted(set(range(n)) - own))
+        ln = min(plens[i], plens[j], rng.choice([1, 100, 16384]))
+        steps += [send(1, fr('Request', i, 0, ln)), send(1, fr('Request', j, 0, ln)), send(1, fr('Request', i, 0, ln))]
     for _ in range(rng.randint(3, 10)):
         steps.append(req(rng.randint(1, nle)))
     if rng.random() < 0.5 and nle == 1:
@@ -459,6 +465,9 @@ def tracker(rng, nfail=None, must=()):
         steps.append({'op': 'advance', 'ms': dt, 'slice': 500, 'scan': False})
         t += dt
         steps.append(send(0, rng.choice([fr('Interested'), fr('NotInterested'), fr('Have', rng.randrange(n)), fr('Choke')]), scan=False))
+    # whatever the retry delays are: wait until the transport has seen every scripted announce
+    steps.append({'op': 'await_announces', 'peer': 0, 'count': nfail + 1, 'cap_ms': 4200000, 'scan': False})
+    steps.append({'op': 'advance', 'ms': 200, 'scan': False})
     # the listed peer answers the client's handshake and serves
     steps.append(send(1, hs(), bf(range(n))))
     steps.append(send(1, fr('Unchoke')))
